@@ -416,6 +416,44 @@ fn main() {
             });
         },
     );
+    // f64 division histories: the quotient must not depend on the divisions that went before it in the same thread (the divisor is
+    // pre-scaled by a power of two - a remembered scale is hidden state of a "stateless" operator). Every word of four divisor
+    // magnitudes over eight binades from 2^-332 to 2^332, each word in a thread of its own so that the history is exactly the word;
+    // z / w and z /= w with z, w = (1.5 + 2.25 i) 2^e, (3 - 4 i) 2^e: the exact quotient is -0.18 + 0.51 i every time (round 15)
+    {
+        let exps: [i32; 8] = [-332, -166, -80, 0, 88, 176, 254, 332];
+        ctx.lattice(
+            "f64 division histories: every word of 4 divisor magnitudes over 8 binades (2^-332..2^332), one fresh thread per word",
+            8u64.pow(4),
+            |idx| format!("{}", idx),
+            |idx, acc| {
+                let word: Vec<i32> = (0..4).map(|k| exps[((idx / 8u64.pow(k)) % 8) as usize]).collect();
+                acc.nontriv("division history of four magnitudes");
+                let w2 = word.clone();
+                judge(acc, idx, || format!("divisor magnitudes 2^{:?} in this order", word), move || {
+                    let word = w2.clone();
+                    let res = std::thread::spawn(move || -> Result<(), String> {
+                        for (step, e) in word.iter().enumerate() {
+                            let sc = 2f64.powi(*e);
+                            let z = Cmplx::new(1.5 * sc, 2.25 * sc);
+                            let w = Cmplx::new(3.0 * sc, -4.0 * sc);
+                            let q = z / w;
+                            let mut q2 = z;
+                            q2 /= w;
+                            ensure!(q.real.to_bits() == q2.real.to_bits() && q.imag.to_bits() == q2.imag.to_bits(), "step {}: z /= w gives {:?}, z / w gives {:?}", step, q2, q);
+                            ensure!((q.real + 0.18).abs() <= 4.0 * f64::EPSILON * 0.18 && (q.imag - 0.51).abs() <= 4.0 * f64::EPSILON * 0.51, "step {} (magnitude 2^{}): z / w = {:?} but the quotient is -0.18 + 0.51 i", step, e, q);
+                        }
+                        Ok(())
+                    })
+                    .join();
+                    match res {
+                        Ok(r) => r,
+                        Err(_) => Err("panic in a division".to_string()),
+                    }
+                });
+            },
+        );
+    }
     let depth = ctx.pick(4, 8);
     let inits = vec![St { z: Complex::new(r(1), r(0)), m: CQ::new(r(1), r(0)) }, St { z: Complex::new(r(0), rq(1, 2)), m: CQ::new(r(0), rq(1, 2)) }];
     explore(&ctx, "compound-assignment histories on Complex<Rat>", inits.clone(), BfsOpts { max_depth: depth, state_cap: ctx.pick(1_000_000, 20_000_000) });
